@@ -109,6 +109,23 @@ func init() {
 		"math.IsNaN":           extIsNaN,
 		"math.IsInf":           extIsInf,
 
+		"math.Floor":       extFPRound("RTN", math.Floor),
+		"math.Ceil":        extFPRound("RTP", math.Ceil),
+		"math.Trunc":       extFPRound("RTZ", math.Trunc),
+		"math.Round":       extFPRound("RNA", math.Round),
+		"math.RoundToEven": extFPRound("RNE", math.RoundToEven),
+		"math.Abs": func(fr *frame, args []value) value {
+			if f, ok := args[0].(sym); ok {
+				return fr.i.x.mk("(fp.abs "+f.e+")", sF64)
+			}
+			return math.Abs(args[0].(float64))
+		},
+		"math.Sqrt": func(fr *frame, args []value) value {
+			if f, ok := args[0].(sym); ok {
+				return fr.i.x.mk("(fp.sqrt RNE "+f.e+")", sF64)
+			}
+			return math.Sqrt(args[0].(float64))
+		},
 		"fmt.Sprintf": extSprintf,
 		"fmt.Sprint":  extSprint,
 		"fmt.Errorf":  extErrorf,
@@ -177,8 +194,8 @@ func init() {
 		"unicode.IsSpace": unicode.IsSpace, "unicode.IsDigit": unicode.IsDigit, "unicode.IsLetter": unicode.IsLetter,
 		"unicode.IsUpper": unicode.IsUpper, "unicode.IsLower": unicode.IsLower, "unicode.ToUpper": unicode.ToUpper, "unicode.ToLower": unicode.ToLower,
 		"unicode.IsPrint": unicode.IsPrint,
-		"math.Abs":        math.Abs, "math.Floor": math.Floor, "math.Ceil": math.Ceil, "math.Sqrt": math.Sqrt, "math.Pow": math.Pow,
-		"math.Mod": math.Mod, "math.Trunc": math.Trunc, "math.Round": math.Round, "math.Log": math.Log, "math.Log2": math.Log2,
+		"math.Abs":        math.Abs, "math.Pow": math.Pow,
+		"math.Mod": math.Mod, "math.Log": math.Log, "math.Log2": math.Log2,
 		"math.Log10": math.Log10, "math.Exp": math.Exp, "math.Max": math.Max, "math.Min": math.Min, "math.Inf": math.Inf, "math.NaN": math.NaN,
 		"math.Sin": math.Sin, "math.Cos": math.Cos, "math.Tan": math.Tan,
 	} {
@@ -332,6 +349,16 @@ func extFloatFromBits(w int) externalFn {
 			return fr.i.x.mk("((_ to_fp 8 24) "+b.e+")", sF32)
 		}
 		panic(unsupported("Float frombits"))
+	}
+}
+
+// extFPRound: math.Floor/Ceil/Trunc/Round on a symbolic float = fp.roundToIntegral with the matching rounding mode.
+func extFPRound(mode string, native func(float64) float64) externalFn {
+	return func(fr *frame, args []value) value {
+		if f, ok := args[0].(sym); ok {
+			return fr.i.x.mk("(fp.roundToIntegral "+mode+" "+f.e+")", sF64)
+		}
+		return native(args[0].(float64))
 	}
 }
 
